@@ -9,13 +9,13 @@ def add(pid, level, text, note, technique, design, engine):
     BUILT[pid] = dict(level=level, text=text, note=note, technique=technique, design=design, engine=engine)
 
 add("C01", "exploration",
-    "Seeded operation histories (random, walker with step co-prime to the capacity, boundary amounts) on real mmap-backed streams of 6 element types and 1-8 pages, through the raw buffer and through the stream pair; after every operation the read window, window lengths and free counts are compared with an executable queue model of unique sample ids; over-large commit/consume must be refused; non-dividing element sizes must be refused. Decides the property on the executions produced (10^5 ops quick, 6*10^7 thorough incl. the complete offset sweep for one-page u32, release and debug builds).",
+    "Seeded operation histories (random, walker with step co-prime to the capacity, boundary amounts) on real mmap-backed streams of 6 element types and 1-8 pages, through the raw buffer and through the stream pair; after every operation the read window, window lengths and free counts are compared with an executable queue model of unique sample ids; over-large commit/consume must be refused; non-dividing element sizes must be refused. Decides the property on the executions produced (10^5 ops quick, 6*10^7 thorough incl. the complete offset sweep for one-page u32; release and debug builds, and in the thorough tier the same histories under AddressSanitizer).",
     "Trusts the harness's queue model and the hooks being passive. Single thread, one live window per side (the documented protocol). Concurrency is C03.",
-    "runtime monitoring: reference-model oracle over generated operation histories", "3/C01", "ring-history")
+    "runtime monitoring: reference-model oracle over generated operation histories (+ AddressSanitizer build in the thorough tier)", "3/C01", "ring-history")
 add("C02", "exploration",
     "Same engine as C01 with a tag-heavy generator (0-6 tags on a sample, tags on first/last sample of a commit and either side of the wrap point, all four value types incl. NaN payloads, consume(0), partial consumes); every read window's tag list (position, key, value, order within a sample) is compared with the model. Decides exactly-once / right-sample / discard-on-consume on the executions produced.",
     "Only contract-conforming commits (tag position < committed count) are judged. Trusts the queue model.",
-    "runtime monitoring: reference-model oracle over generated tagged histories", "3/C02", "ring-history")
+    "runtime monitoring: reference-model oracle over generated tagged histories (+ AddressSanitizer build in the thorough tier)", "3/C02", "ring-history")
 
 add("C03", "exploration",
     "A producer thread and a consumer thread run a randomized legal protocol on one 1-2 page ring of u32/u64/[u8;16] (raw buffer and stream pair): random window/commit/consume sizes incl. 0 and full capacity, scribbles beyond the committed count, windows held across the other side's operations, waits with need above what will arrive so time-outs fire, seeded delays at yield hooks. Three monitors: the consumer checks every sample against the unique id sequence (torn/stale/duplicated/skipped); over the recorded event log (emitted under the stream's own lock) no write window may intersect a live read window modulo capacity and produced = consumed + used at every event; the same workload runs in a ThreadSanitizer build (-Zbuild-std) with the recorder off, any report is a violation.",
@@ -26,11 +26,11 @@ add("C04", "fault_enumeration",
     "Cuts are the library's yield hooks (all outside its locks); orders between hooks are reached only by the random delays of C05. Liveness is restated as 'told within 2 wait() calls'.",
     "runtime monitoring with scripted schedules: thread parked at yield hooks inside the check-then-act window", "3/C04", "eos-scripts")
 add("C05", "exploration",
-    "Generated graph programs over ~25 deterministic library blocks (chains of 0-6 stages, tee/merge diamonds with bounded skew, rate changers, packet stages HdlcDeframer->VecToStream; finite VectorSource of 0..5 stream capacities, 1-3 repetitions; streams of 1,2,4,16 pages or default) run on the real MTGraph with every block wrapped in a probe, in forward/reverse/random add order, with seeded PCT-style delays injected at yield hooks (incl. >100 ms sleeps so wait time-outs fire). Termination is decided by a logical stuck rule (no data event and no block exit while every live block was called 4 more times), the sink is compared bit-for-bit with the harness's own sequential executor on default streams, and block drop / thread count are checked after run().",
+    "Generated graph programs over ~25 deterministic library blocks (chains of 0-6 stages, tee/merge diamonds with bounded skew, rate changers, packet stages HdlcDeframer->VecToStream; finite VectorSource of 0..5 stream capacities, 1-3 repetitions; streams of 1,2,4,16 pages or default; CollectSink or a VectorSink watched by a second thread) run on the real MTGraph with every block wrapped in a probe, in forward/reverse/random add order, with seeded PCT-style delays injected at yield hooks (incl. >100 ms sleeps so wait time-outs fire). Termination is decided by a logical stuck rule (no data event and no block exit while every live block was called 4 more times), the sink is compared bit-for-bit with the harness's own sequential executor on default streams, and block drop / thread count are checked after run().",
     "Decides only the interleavings produced on this x86-64 machine. The reference executor is harness code that looks at data movement, not verdicts. Diamonds are generated with equal rates and skew <= capacity/8 (an unbalanced diamond deadlocks by dataflow construction).",
     "runtime monitoring: differential oracle vs sequential reference under injected schedule noise + logical stuck detector", "3/C05", "graph-programs")
 add("C06", "exploration",
-    "The same generated programs on the single-threaded Graph in forward, reverse and random add orders on 1-16 page streams. After run() returns Ok, every block is called again through the hook accessor Graph::verif_blocks_mut and no data may move (quiescence probe); then the sink must equal the reference. An early return is classified by whether the pass that decided termination contained a data-moving call with a non-Again verdict (the recorded known finding) or not (reported).",
+    "The same generated programs on the single-threaded Graph in forward, reverse and random add orders on 1-16 page streams; a quarter of the programs end in the library's VectorSink while a second thread keeps taking its Hook::data() guard for 20-400 us at a time (a test or UI thread watching the sink). After run() returns Ok, every block is called again through the hook accessor Graph::verif_blocks_mut and no data may move (quiescence probe); then the sink must equal the reference. An early return is classified by whether the pass that decided termination contained a data-moving call with a non-Again verdict (the recorded known finding) or not (reported).",
     "Known finding C06|Graph::run|returned-before-quiescence|final-pass-had-data-moving-non-Again-call is listed in known_findings.json: runs that hit it are not judged further. Any other signature is a violation.",
     "runtime monitoring: quiescence probe at a hook + differential oracle vs sequential reference", "3/C06", "graph-programs")
 add("C07", "fault_enumeration",
@@ -42,7 +42,7 @@ add("C08", "exploration",
     "Reference = the same implementation run one-shot (a defect that is chunking-independent is C10/C11's business). Floats are compared bitwise. Hooks must be passive.",
     "runtime monitoring: differential oracle (drip-fed vs one-shot run of the real block)", "3/C08", "drip-feed")
 add("C09", "exploration",
-    "On the C08 executions every work() call is observed through the stream hooks: samples offered vs moved per stream, handle counts after return, and the stream a wait verdict names (identified by a non-blocking wait(0) probe through a yield hook). After each wait verdict the harness satisfies exactly that request on that stream alone and demands progress or a changed verdict within 3 calls; Again without any stream event is re-called 8 times (idle spin); after the inputs ended and outputs are drained, EOF or a wait on an ended input is demanded within 8 calls.",
+    "On the C08 catalogue and schedules every work() call is observed through the stream hooks; in a third of the scheduled calls the harness additionally acts as the neighbouring blocks inside the call (at the stream operations' yield points, where no lock is held, it drains an output or feeds an input, as concurrent neighbours do under MTGraph) and every commit is then bounded by the window the block was actually handed. Observed per call: samples offered vs moved per stream, handle counts after return, and the stream a wait verdict names (identified by a non-blocking wait(0) probe through a yield hook). After each wait verdict the harness satisfies exactly that request on that stream alone and demands progress or a changed verdict within 3 calls; Again without any stream event is re-called 8 times (idle spin); after the inputs ended and outputs are drained, EOF or a wait on an ended input is demanded within 8 calls.",
     "WaitForFunc is opaque: only moved<=offered, leaks, spin and retirement (with eof()) are judged for it. Bounds 3/8/8 calls are the bounded restatement of 'makes progress' / 'retires'.",
     "runtime monitoring: per-call verdict checker over hook events with active probes", "3/C09", "drip-feed")
 add("C10", "exploration",
